@@ -49,6 +49,7 @@ CHECKS["SESS19"] = lambda pid, tier: sesscheck.run("C19", tier)   # Session.tla 
 CHECKS["SESS07"] = lambda pid, tier: sesscheck.run("C07", tier)
 CHECKS["C19"] = merged(lifecheck.run, sesscheck.run)
 CHECKS["C07"] = merged(dyncheck.run, sesscheck.run)
+CHECKS["C06"] = merged(buildcheck.run, sesscheck.run)   # validation asked in every session state (after steps, failures, replacements)
 
 import extracheck
 
